@@ -566,15 +566,21 @@ def l6(ctx):
     obs.append(Ob('L6', 'pid-mismatch-closes-and-restamps', ok and n > 0,
                   'after fork the inherited connection is not dropped (close + record new pid) before use: parent and '
                   'child would share one SQLite connection', con.loc(), wit))
-    # every path returns a connection that is either the stored one or a fresh connect that was stored
+    # every path returns a connection that is either the stored one or a fresh connect that was stored - and it was
+    # obtained after the last close() of the path (a reference read before the fork check is a closed connection)
     ok = True
     for p in ctx.paths(con, 'plain'):
         if p.kind == 'return':
             v = p.outcome[1]
             if not (v.k == 'ext' and v.a[0] in ('sqlite3.connect', 'builtins.getattr')):
                 ok = False
+                continue
+            closes = [e.seq for e in call_events(p.trace, 'Cache.close')]
+            if closes and isinstance(v.a[1], int) and v.a[1] < max(closes):
+                ok = False
     obs.append(Ob('L6', 'returns-thread-connection', ok, 'the getter returns something other than the thread\'s stored '
-                  'connection', con.loc()))
+                  'connection, or a reference it read before closing the inherited connection after a fork (the '
+                  'first operation in the child then fails with "Cannot operate on a closed database")', con.loc()))
     # __init__ works with its own (zero) timeout; the connection it leaves behind must carry the configured one:
     # either it is closed so that the next use reconnects with self._timeout, or its busy timeout is set to
     # timeout * 1000 (PRAGMA busy_timeout takes milliseconds)
